@@ -57,10 +57,10 @@ func (g *Generator) makeJson() {
 				needJSON = true
 			}
 		} else {
-			if f.isGet || allGetSet.Has(transfer.ToPascalCase(f.name)) {
+			if f.isGet && g.getter || allGetSet.Has(transfer.ToPascalCase(f.name)) {
 				needJSON = true
 			}
-			if f.isSet || allSetSet.Has(set+transfer.ToPascalCase(f.name)) {
+			if f.isSet && g.setter || allSetSet.Has(set+transfer.ToPascalCase(f.name)) {
 				needJSON = true
 			}
 		}
@@ -71,11 +71,11 @@ func (g *Generator) makeJson() {
 			jsonList = append(jsonList, f.name)
 		} else {
 			getset := false
-			if f.isGet || allGetSet.Has(transfer.ToPascalCase(f.name)) {
+			if f.isGet && g.getter || allGetSet.Has(transfer.ToPascalCase(f.name)) {
 				getterList = append(getterList, f.name)
 				getset = true
 			}
-			if f.isSet || allSetSet.Has(set+transfer.ToPascalCase(f.name)) {
+			if f.isSet && g.setter || allSetSet.Has(set+transfer.ToPascalCase(f.name)) {
 				setterList = append(setterList, f.name)
 				getset = true
 			}
